@@ -18,7 +18,7 @@ ASSUMPTIONS = [
     "text-file instance order follows os.listdir and is not part of the property: read instances are matched to written ones by content",
     "checkpoints are written to a scratch directory that is removed afterwards; training uses 8 instances, 1 epoch, CPU, fp32",
 ]
-REQUIRED_COUNTERS = ["c19_abs_path_sets", "c19_filename_override_loads", "c19_generated_file_comparisons", "c19_phase_decode_checks", "c19_npz_dtype_cases", "c19_default_path_files", "c19_mdpp_files", "c19_capacity_override_files", "c19_op_prize_rule_checks", "c19_npz_roundtrips", "c19_datafile_loads", "c19_datafile_rows", "c19_sched_file_sets", "c19_env_copies", "c19_behaviour_checks", "c19_checkpoints", "c19_policy_rows", "c19_baseline_checks", "c19_multifile_checks", "c19_merged_capacity_files", "c19_sched_rereads", "c19_dataset_from_file_loads"]
+REQUIRED_COUNTERS = ["c19_baseline_copies", "c19_abs_path_sets", "c19_filename_override_loads", "c19_generated_file_comparisons", "c19_phase_decode_checks", "c19_npz_dtype_cases", "c19_default_path_files", "c19_mdpp_files", "c19_capacity_override_files", "c19_op_prize_rule_checks", "c19_npz_roundtrips", "c19_datafile_loads", "c19_datafile_rows", "c19_sched_file_sets", "c19_env_copies", "c19_behaviour_checks", "c19_checkpoints", "c19_policy_rows", "c19_baseline_checks", "c19_multifile_checks", "c19_merged_capacity_files", "c19_sched_rereads", "c19_dataset_from_file_loads"]
 MIN_NONTRIVIAL = {"quick": 150, "thorough": 1000}
 WORKERS = {"quick": 14, "thorough": 16}
 BUDGET_S = {"quick": 500, "thorough": 3000}
